@@ -1,6 +1,6 @@
 (** C15 — no key derivation path is ever used for two outputs.
     Statements only (proofs: theories/LedgerProofs.v). *)
-From GW Require Import Ledger LedgerProofs.
+From GW Require Import Ledger LedgerProofs Scan LedgerX LedgerXProofs ScanRepairProofs.
 
 (** next_child commits the bump and returns the old index: the path it hands out was never
     recorded before (not in the output table, not promised in any context) whenever every
@@ -51,3 +51,18 @@ Example C15_history :
      OpCoinbase 0 2 (Some (0, 0)); OpCoinbase 0 3 (Some (0, 1))] in
   map r_key (w_outs w) = [(0, 0); (0, 1); (1, 0); (1, 1)] /\ w_child w = [(0, 2); (1, 2)].
 Proof. vm_compute. split; reflexivity. Qed.
+
+(** The invariant survives loss and recovery: in every state reachable through histories that
+    also restore the wallet from its recovery phrase (a new database, then a scan), scan the
+    existing wallet (with or without dropping pending transactions) and run the
+    kernel-confirmation step, every recorded key — restored from the chain or not — lies below
+    the next-child counter of its account path, so the next path handed out is beyond all of
+    them. *)
+Theorem C15_fresh_invariant_across_restore_and_scan : forall ops, Fresh (xrun empty_wallet ops).
+Proof. exact xfresh_reachable. Qed.
+Print Assumptions C15_fresh_invariant_across_restore_and_scan.
+
+(** one scan, from ANY state satisfying the invariant *)
+Theorem C15_scan_preserves_fresh : forall w chain del, Fresh w -> Fresh (scan_repair w chain del).
+Proof. exact scan_repair_fresh. Qed.
+Print Assumptions C15_scan_preserves_fresh.
